@@ -12,7 +12,8 @@ from google.protobuf import any_pb2, empty_pb2, struct_pb2, json_format  # noqa:
 from google.rpc import status_pb2  # noqa: E402
 
 ERRORS = {'NOT_FOUND': (5, 'NotFound'), 'ABORTED': (10, 'Aborted'), 'INTERNAL': (13, 'InternalServerError')}
-OP_NAME = 'operations/op-1'
+OP_NAMES = ['operations/op-1', 'projects/p1/operations/op-2']    # the second matches only the additional REST binding
+OP_NAME = OP_NAMES[0]
 POLL_PATH = '/google.longrunning.Operations/GetOperation'
 
 
@@ -53,8 +54,8 @@ def main(p):
         any_.value = dyn.SerializeToString()
         return any_
 
-    def op(done, cell, outcome=None):
-        o = operations_pb2.Operation(name=OP_NAME, done=done)
+    def op(done, cell, outcome=None, name=None):
+        o = operations_pb2.Operation(name=name or OP_NAME, done=done)
         o.metadata.CopyFrom(pack(payload(cell['meta'], 'm')))
         if done and outcome == 'response':
             o.response.CopyFrom(pack(payload(cell['resp'], 'r')))
@@ -67,6 +68,9 @@ def main(p):
             yield ('done-at-once', outcome), [op(True, cell, outcome)]
             for k in range(0, a['max_k'] + 1):
                 yield (f'not-done^{k + 1}', outcome), [op(False, cell)] * (k + 1) + [op(True, cell, outcome)]
+        # an operation whose name only matches the additional GetOperation binding
+        n2 = OP_NAMES[1]
+        yield ('not-done^2/second-name', 'response'), [op(False, cell, name=n2)] * 2 + [op(True, cell, 'response', name=n2)]
 
     def judge(cell, hist, ops, polls, md, res, exc):
         """polls: list of (where, name) after the initial call."""
@@ -76,8 +80,9 @@ def main(p):
         for where, name in polls:
             if not where:
                 return fail(cell, hist, 'poll-target', f'poll went to {name}')
-            if name != OP_NAME:
-                return fail(cell, hist, 'poll-name', f'polled {name!r}, operation is {OP_NAME!r}')
+            exp_name = OP_NAMES[1] if hist[0].endswith('second-name') else OP_NAME
+            if name != exp_name:
+                return fail(cell, hist, 'poll-name', f'polled {name!r}, operation is {exp_name!r}')
         Emd = expected_class(cell['meta'])
         if md is not None and type(md) is not Emd:
             return fail(cell, hist, 'metadata-type', f'{type(md).__module__}.{type(md).__name__}, annotated {cell["meta"]}')
@@ -217,7 +222,7 @@ def main(p):
                 polls = []
                 for e in seam.log[1:]:
                     u = urllib.parse.urlsplit(e['url'])
-                    polls.append((e['verb'] == 'GET' and u.path.startswith('/v1/operations/'), u.path[len('/v1/'):]))
+                    polls.append((e['verb'] == 'GET' and ('/operations/' in u.path), u.path[len('/v1/'):]))
                 judge(cell, hist, ops, polls, md, res, exc)
                 note(cell, hist, ops)
     return out
